@@ -803,6 +803,31 @@ func init() {
 				}
 			}
 			ctx.Cell(cell)
+			if len(prog.B.Globals) > 0 && rerr == nil && i%3 == 0 {
+				// the same sources compiled again with other values for the globals: each bundle prints its own values,
+				// and the first one keeps printing what it printed
+				g2 := map[string]ref.Value{}
+				for k, v := range prog.B.Globals {
+					switch v.K {
+					case ref.KInt:
+						v = ref.Int(v.I + 1)
+					case ref.KStr:
+						v = ref.Str(v.S + "~")
+					case ref.KBool:
+						v = ref.Bool(!v.B)
+					}
+					g2[k] = v
+				}
+				if tofu2, err2 := compile(files, g2); err2 == nil {
+					_, _ = render(tofu2, prog.Entry, d, &c01IJ, nil)
+					again, aerr := render(tofu, prog.Entry, d, &c01IJ, nil)
+					ctx.Obs("recompiled_with_other_globals", 1)
+					if aerr != nil || again != got {
+						return fw.Result{Verdict: fw.Violated, Key: "bundle-affected-by-another-compilation", Case: cd,
+							Msg: fmt.Sprintf("expression %q: the bundle printed %q; after the same sources were compiled again with other values for the globals it prints %q (err %v)", ref.Src(e, style), got, again, aerr)}
+					}
+				}
+			}
 			if i%3001 == 0 {
 				ctx.Sample(map[string]interface{}{"expr": ref.Src(e, style), "position": posName, "data": cd.Data, "output": got, "err": errText(rerr), "reference": ref.Text(segs), "reference_errors": st == ref.Err})
 			}
